@@ -17,7 +17,7 @@ from props import c11_gen, c11_export as X, c11_progs, c11_cbfam
 # C11-codeblock-accesses-ignored in known_findings.d/C11.json back to "finding".
 # Once fixes/C11-inquiry-codeblock.patch is applied to /repo: set this to "fixed5" and the status of the entry
 # C11-inquiry-codeblock-subscripts to "fixed-by-patch".
-MODEL_RULE = os.environ.get("C11_MODEL_RULE", "fixed")      # (the variable only serves to try a fix candidate)
+MODEL_RULE = os.environ.get("C11_MODEL_RULE", "fixed5")      # (the variable only serves to try a fix candidate)
 
 
 # ---------------------------------------------------------------------------
